@@ -180,7 +180,7 @@ var errSourceFault = errors.New("verif: injected source fault")
 
 // C09: I/O failures are never masked.
 func C09(c *hx.Ctx) {
-	c.Rule = "writer side: for each scenario (xz/lzma/lzma2 x configurations incl. multi-block and multi-chunk x call histories incl. Flush, redundant Close, Write after Close) a fault-free dry run counts the sink writes M; every plan (k in 1..M) x {once, forever} x {no partial, partial write} from the TLC-generated plan set is replayed (sink as plain io.Writer and as io.ByteWriter); reader side: every valid base stream x every source offset k x {error alone, error together with the last bytes}; recorded fault runs validated by TLC (TraceIo/FaultContract); non-trivial = fault index at which at least one later call is made"
+	c.Rule = "writer side: for each scenario (xz/lzma/lzma2 x configurations incl. multi-block and multi-chunk x call histories incl. Flush, redundant Close, Write after Close) a fault-free dry run counts the sink writes M; every plan (k in 1..M) x {once, forever} x {no partial, partial write} from the TLC-generated plan set is replayed (sink as plain io.Writer and as io.ByteWriter); reader side: every valid base stream x every source offset k x {error alone, error together with the last bytes}; recorded fault runs validated by TLC (TraceIo/FaultContract); non-trivial = fault index at which at least one later call is made; the failing write accepts none, half or all of its bytes; scenarios include raw chunks copied from a wrapped ring"
 	c.Assumptions = []string{"TLC (IoContract.FaultContract, IoGen plans)", "reference decoders judge 'complete valid stream'"}
 	c.Exhaustive = true
 	c.Level = "fault_enumeration"
